@@ -309,41 +309,30 @@ Proof.
   destruct p; [|destruct (400 <=? ret)%Z]; simpl; rewrite ?no_panic_app, ?H; reflexivity.
 Qed.
 
-(* the shape of log_serve's result on a script that returns *)
-Lemma log_serve_found c cs tbl ek rules path ops ret u r :
-  find (fun r => path_matches cs path (ru_scope r)) rules = Some r ->
-  no_panic ops = true ->
-  let s := fst (run c (u, rec0) (ops ++ fallback tbl ek ret)) in
-  log_serve c cs tbl ek rules path ops ret u =
-  (fst s, if (400 <=? ret)%Z then 0%Z else ret, false,
-   map (fun e => (n_id e, r_status (snd s), r_size (snd s)))
-       (filter (fun e => should_log cs (n_except e) path) (ru_entries r))).
-Proof.
-  intros Hf Hn. cbv zeta. unfold log_serve. rewrite Hf.
-  rewrite (run_app c ops (u, rec0) (fallback tbl ek ret) Hn).
-  pose proof (run_no_panic c ops (u, rec0) Hn) as Hp.
-  destruct (run c (u, rec0) ops) as [[u1 r1] p]. simpl in Hp. subst p. cbn [fst].
-  unfold fallback. destruct (400 <=? ret)%Z.
-  - destruct (run c (u1, r1) (err_ops tbl ek ret)) as [[u2 r2] p2]. reflexivity.
-  - reflexivity.
-Qed.
-
-Lemma log_serve_not_found c cs tbl ek rules path ops ret u :
-  find (fun r => path_matches cs path (ru_scope r)) rules = None ->
-  snd (log_serve c cs tbl ek rules path ops ret u) = [].
-Proof.
-  intro Hf. unfold log_serve. rewrite Hf. destruct (run c (u, rec0) ops) as [[u' r'] p]. reflexivity.
-Qed.
-
-(* ---- exactly one line per entry ------------------------------------------------------------ *)
+(* ---- exactly one line per entry of every matching rule ------------------------------------- *)
 Lemma count_id_app i a b : count_id i (a ++ b) = (count_id i a + count_id i b)%nat.
 Proof. unfold count_id. rewrite filter_app, app_length. reflexivity. Qed.
 
-Lemma count_id_none i (st : Z) (sz : N) (es : list entry) :
-  ~ In i (map n_id es) -> count_id i (map (fun e => (n_id e, st, sz)) es) = 0%nat.
+(* the entries that get a line, and how many of them carry a given id *)
+Definition logged (cs : bool) (path : bytes) (rules : list rule) : list entry :=
+  filter (fun e => should_log cs (n_except e) path) (matching_entries cs rules path).
+Definition idcount (j : nat) (es : list entry) : nat :=
+  length (filter (fun e => Nat.eqb (n_id e) j) es).
+
+Lemma count_id_map j (st : Z) (sz : N) es :
+  count_id j (map (fun e => (n_id e, st, sz)) es) = idcount j es.
+Proof.
+  induction es as [|e es IH]; [reflexivity|].
+  unfold count_id, idcount in *. simpl. destruct (Nat.eqb (n_id e) j); simpl; rewrite IH; reflexivity.
+Qed.
+
+Lemma idcount_app j a b : idcount j (a ++ b) = (idcount j a + idcount j b)%nat.
+Proof. unfold idcount. rewrite filter_app, app_length. reflexivity. Qed.
+
+Lemma idcount_none j es : ~ In j (map n_id es) -> idcount j es = 0%nat.
 Proof.
   induction es as [|e es IH]; intro H; [reflexivity|].
-  unfold count_id in *. simpl. destruct (Nat.eqb (n_id e) i) eqn:E.
+  unfold idcount in *. simpl. destruct (Nat.eqb (n_id e) j) eqn:E.
   - apply Nat.eqb_eq in E. exfalso. apply H. simpl. now left.
   - apply IH. intro Hin. apply H. simpl. now right.
 Qed.
@@ -354,229 +343,289 @@ Proof.
   apply in_map_iff. exists e. split; assumption.
 Qed.
 
-Lemma count_one_per_entry (g : entry -> bool) (st : Z) (sz : N) : forall es e,
-  NoDup (map n_id es) -> In e es ->
-  count_id (n_id e) (map (fun e => (n_id e, st, sz)) (filter g es)) = if g e then 1%nat else 0%nat.
+Lemma idcount_one (g : entry -> bool) : forall es e,
+  NoDup (map n_id es) -> In e es -> idcount (n_id e) (filter g es) = if g e then 1%nat else 0%nat.
 Proof.
   induction es as [|a es IH]; intros e Hnd Hin; [contradiction|].
   simpl in Hnd. inversion Hnd as [|x l Hna Hnd']. subst x l. destruct Hin as [->|Hin].
   - simpl. destruct (g e) eqn:Eg.
-    + simpl. unfold count_id. simpl. rewrite Nat.eqb_refl. simpl. f_equal.
-      apply (count_id_none (n_id e) st sz (filter g es)).
+    + unfold idcount. simpl. rewrite Nat.eqb_refl. simpl. f_equal.
+      apply (idcount_none (n_id e) (filter g es)).
       intro H. apply Hna. eapply filter_ids_subset. exact H.
-    + apply count_id_none. intro H. apply Hna. eapply filter_ids_subset. exact H.
+    + apply idcount_none. intro H. apply Hna. eapply filter_ids_subset. exact H.
   - assert (Hne : n_id a <> n_id e).
     { intro Heq. apply Hna. rewrite Heq. apply in_map. exact Hin. }
     simpl. destruct (g a).
-    + simpl. unfold count_id. simpl. apply Nat.eqb_neq in Hne. rewrite Hne. apply IH; assumption.
+    + unfold idcount. simpl. apply Nat.eqb_neq in Hne. rewrite Hne. apply IH; assumption.
     + apply IH; assumption.
 Qed.
 
-Lemma one_line_per_entry c cs tbl ek rules path ops ret u r :
-  find (fun r => path_matches cs path (ru_scope r)) rules = Some r ->
-  no_panic ops = true ->
-  NoDup (map n_id (ru_entries r)) ->
-  let '(_, _, p, lines) := log_serve c cs tbl ek rules path ops ret u in
-  p = false /\
-  (forall e, In e (ru_entries r) ->
-     count_id (n_id e) lines = if should_log cs (n_except e) path then 1%nat else 0%nat) /\
-  (forall i, ~ In i (map n_id (ru_entries r)) -> count_id i lines = 0%nat) /\
-  (exists st sz, forall l, In l lines -> snd (fst l) = st /\ snd l = sz).
+Lemma logged_cons cs path r rs :
+  logged cs path (r :: rs) =
+  (if path_matches cs path (ru_scope r)
+   then filter (fun e => should_log cs (n_except e) path) (ru_entries r) else []) ++ logged cs path rs.
 Proof.
-  intros Hf Hn Hnd. rewrite (log_serve_found c cs tbl ek rules path ops ret u r Hf Hn).
-  set (s := fst (run c (u, rec0) (ops ++ fallback tbl ek ret))).
-  split; [reflexivity|]. split; [|split].
-  - intros e He. apply (count_one_per_entry (fun e => should_log cs (n_except e) path) _ _ _ e Hnd He).
-  - intros i Hi. apply count_id_none. intro H. apply Hi. eapply filter_ids_subset. exact H.
-  - exists (r_status (snd s)), (r_size (snd s)). intros l Hl.
-    apply in_map_iff in Hl as [e [<- _]]. split; reflexivity.
+  unfold logged, matching_entries. simpl. destruct (path_matches cs path (ru_scope r)); [|reflexivity].
+  simpl. apply filter_app.
+Qed.
+
+Lemma logged_ids_subset cs path : forall rules i,
+  In i (map n_id (logged cs path rules)) -> In i (map n_id (flat_map ru_entries rules)).
+Proof.
+  induction rules as [|r rs IH]; intros i H; [exact H|].
+  rewrite logged_cons, map_app in H. simpl. rewrite map_app. apply in_or_app.
+  apply in_app_or in H as [H|H].
+  - left. destruct (path_matches cs path (ru_scope r)); [|contradiction]. eapply filter_ids_subset. exact H.
+  - right. apply IH. exact H.
+Qed.
+
+Lemma NoDup_app_parts {A} (a b : list A) :
+  NoDup (a ++ b) -> NoDup a /\ NoDup b /\ (forall x, In x a -> ~ In x b).
+Proof.
+  induction a as [|x a IH]; intro H.
+  - split; [constructor|]. split; [exact H|]. intros x [].
+  - simpl in H. inversion H as [|y l Hx Hnd]. subst y l. destruct (IH Hnd) as [Ha [Hb Hd]].
+    split; [constructor; [intro Hin; apply Hx; apply in_or_app; now left|exact Ha]|].
+    split; [exact Hb|]. intros z [<-|Hz]; [intro Hin; apply Hx; apply in_or_app; now right|apply Hd; exact Hz].
+Qed.
+
+Lemma idcount_logged cs path : forall rules r e,
+  NoDup (map n_id (flat_map ru_entries rules)) -> In r rules -> In e (ru_entries r) ->
+  idcount (n_id e) (logged cs path rules) =
+  if path_matches cs path (ru_scope r) && should_log cs (n_except e) path then 1%nat else 0%nat.
+Proof.
+  induction rules as [|r0 rs IH]; intros r e Hnd Hr He; [contradiction|].
+  simpl in Hnd. rewrite map_app in Hnd. apply NoDup_app_parts in Hnd as [Ha [Hb Hd]].
+  rewrite logged_cons, idcount_app. destruct Hr as [->|Hr].
+  - assert (Hz : idcount (n_id e) (logged cs path rs) = 0%nat).
+    { apply idcount_none. intro H. apply logged_ids_subset in H.
+      apply (Hd (n_id e)); [apply in_map; exact He|exact H]. }
+    rewrite Hz, Nat.add_0_r. destruct (path_matches cs path (ru_scope r)); [|reflexivity].
+    simpl. apply idcount_one; assumption.
+  - assert (Hz : idcount (n_id e)
+                   (if path_matches cs path (ru_scope r0)
+                    then filter (fun e => should_log cs (n_except e) path) (ru_entries r0) else []) = 0%nat).
+    { apply idcount_none. intro H.
+      assert (H' : In (n_id e) (map n_id (ru_entries r0))).
+      { destruct (path_matches cs path (ru_scope r0)); [eapply filter_ids_subset; exact H|contradiction]. }
+      apply (Hd (n_id e) H'). apply in_map. apply in_flat_map. exists r. split; assumption. }
+    rewrite Hz. simpl. apply IH; assumption.
+Qed.
+
+Lemma find_none_filter {A} (m : A -> bool) : forall l, find m l = None -> filter m l = [].
+Proof.
+  induction l as [|x l IH]; intro H; [reflexivity|]. simpl in *.
+  destruct (m x); [discriminate|]. apply IH. exact H.
+Qed.
+
+(* whatever the handler does, the lines are those of [logged], all with one status and size; a
+   panic gets past the middleware only when the request is outside every scope *)
+Lemma log_serve_lines_shape c cs tbl ek rules path ops ret u :
+  let '(_, _, p, lines) := log_serve c cs tbl ek rules path ops ret u return Prop in
+  (exists st sz, lines = map (fun e => (n_id e, st, sz)) (logged cs path rules)) /\
+  (p = true -> find (fun r => path_matches cs path (ru_scope r)) rules = None).
+Proof.
+  unfold log_serve.
+  destruct (find (fun r => path_matches cs path (ru_scope r)) rules) as [r|] eqn:Hf.
+  - destruct (run c (u, rec0) ops) as [[u1 r1] p].
+    destruct (400 <=? (if p then 500 else ret))%Z.
+    + destruct (run c (u1, r1) (err_ops tbl ek (if p then 500%Z else ret))) as [[u2 r2] p2].
+      split; [eexists; eexists; reflexivity|discriminate].
+    + split; [eexists; eexists; reflexivity|discriminate].
+  - destruct (run c (u, rec0) ops) as [[u' r'] p].
+    split; [|reflexivity]. exists 0%Z, 0. unfold logged, matching_entries.
+    rewrite (find_none_filter _ rules Hf). reflexivity.
+Qed.
+
+Lemma find_none_all {A} (m : A -> bool) : forall l, find m l = None -> forall x, In x l -> m x = false.
+Proof.
+  induction l as [|y l IH]; intros H x Hx; [contradiction|]. simpl in H.
+  destruct (m y) eqn:E; [discriminate|]. destruct Hx as [<-|Hx]; [exact E|apply IH; assumption].
+Qed.
+
+Lemma one_line_per_entry c cs tbl ek rules path ops ret u :
+  NoDup (map n_id (flat_map ru_entries rules)) ->
+  let '(_, _, p, lines) := log_serve c cs tbl ek rules path ops ret u in
+  (forall r e, In r rules -> In e (ru_entries r) ->
+     count_id (n_id e) lines =
+     if path_matches cs path (ru_scope r) && should_log cs (n_except e) path then 1%nat else 0%nat) /\
+  (forall i, ~ In i (map n_id (flat_map ru_entries rules)) -> count_id i lines = 0%nat) /\
+  (exists st sz, forall l, In l lines -> snd (fst l) = st /\ snd l = sz) /\
+  (p = true -> forall r, In r rules -> path_matches cs path (ru_scope r) = false).
+Proof.
+  intros Hnd. pose proof (log_serve_lines_shape c cs tbl ek rules path ops ret u) as H.
+  destruct (log_serve c cs tbl ek rules path ops ret u) as [[[u' r'] p] lines].
+  destruct H as [[st [sz ->]] Hp]. split; [|split; [|split]].
+  - intros r e Hr He. rewrite count_id_map. apply idcount_logged; assumption.
+  - intros i Hi. rewrite count_id_map. apply idcount_none. intro H. apply Hi.
+    apply logged_ids_subset in H. exact H.
+  - exists st, sz. intros l Hl. apply in_map_iff in Hl as [e [<- _]]. split; reflexivity.
+  - intros E r Hr. apply (find_none_all _ rules (Hp E) r Hr).
 Qed.
 
 (* ---- logged status and size are what the client got ----------------------------------------- *)
-Definition consistent (s : uw * rec) : Prop :=
-  u_size (fst s) = r_size (snd s) /\
-  (u_status (fst s) = Some (r_status (snd s)) \/ (u_status (fst s) = None /\ r_status (snd s) = 200%Z)).
+(* the recorder and the writer below it agree: same byte count, and either both have committed
+   the same status or neither has (the recorder then still holds its default 200) *)
+Definition consistent (c : wcfg) (s : uw * rec) : Prop :=
+  u_size (fst s) = logged_size c (snd s) /\
+  ((u_status (fst s) = Some (r_status (snd s)) /\ r_wrote (snd s) = true) \/
+   (u_status (fst s) = None /\ r_status (snd s) = 200%Z /\ r_wrote (snd s) = false)).
 
-Lemma consistent_client s : consistent s ->
-  client_status (fst s) = r_status (snd s) /\ u_size (fst s) = r_size (snd s).
+Lemma consistent_client c s : consistent c s ->
+  client_status (fst s) = r_status (snd s) /\ u_size (fst s) = logged_size c (snd s).
 Proof.
-  intros [Hs [Hc|[Hc H2]]]; split; try exact Hs; unfold client_status; rewrite Hc; [reflexivity|].
+  intros [Hs [[Hc _]|[Hc [H2 _]]]]; split; try exact Hs; unfold client_status; rewrite Hc; [reflexivity|].
   symmetry. exact H2.
 Qed.
 
-Lemma step_ow_consistent c s len fail :
-  w_head c = false -> consistent s -> consistent (step c s (OW len fail)).
+Lemma consistent_init c : consistent c (uw0, rec0).
+Proof. split; simpl; [unfold logged_size; destruct (w_head c); reflexivity|right; repeat split; reflexivity]. Qed.
+
+Lemma step_consistent c s o :
+  head_ok c = true -> final_codes [o] = true -> consistent c s -> consistent c (step c s o).
 Proof.
-  intros Hh [Hs Hc]. destruct s as [u r]. simpl in *. unfold uw_write.
-  assert (H1 : u_size (uw_wh u 200) = r_size r /\ u_status (uw_wh u 200) = Some (r_status r)).
-  { unfold uw_wh. destruct Hc as [Hc|[Hc H2]]; rewrite Hc; simpl; [auto|]. rewrite H2. auto. }
-  destruct H1 as [H1 H2]. rewrite Hh, andb_false_r.
-  destruct (w_nethttp c && body_forbidden (client_status (uw_wh u 200))).
-  - split; simpl; [exact H1|left; exact H2].
-  - destruct fail as [k|]; split; simpl; try exact H1; try (left; exact H2). rewrite H1. reflexivity.
+  intros Hh Hf [Hs Hc]. destruct s as [u r]. destruct o as [code|len fail|]; [| |split; assumption].
+  - simpl in Hf. rewrite andb_true_r in Hf. simpl in *. unfold uw_wh.
+    destruct Hc as [[Hc Hw]|[Hc [H2 Hw]]]; rewrite Hc, Hw; simpl.
+    + split; [exact Hs|left; split; assumption].
+    + rewrite Hf. simpl. split; [exact Hs|left; split; reflexivity].
+  - simpl in *. unfold uw_write.
+    assert (H1 : u_size (uw_wh u 200) = logged_size c r /\ u_status (uw_wh u 200) = Some (r_status r)).
+    { unfold uw_wh. destruct Hc as [[Hc _]|[Hc [H2 _]]]; rewrite Hc; simpl; [auto|]. rewrite H2. auto. }
+    destruct H1 as [H1 H2]. unfold head_ok in Hh. unfold logged_size in *.
+    destruct (w_head c) eqn:Eh.
+    + simpl in Hh. rewrite Hh. simpl.
+      destruct (body_forbidden (client_status (uw_wh u 200)));
+        (split; simpl; [unfold logged_size; simpl; rewrite Eh; exact H1|left; split; [exact H2|reflexivity]]).
+    + rewrite andb_false_r.
+      destruct (w_nethttp c && body_forbidden (client_status (uw_wh u 200))).
+      * split; simpl; [unfold logged_size; simpl; rewrite Eh; exact H1|left; split; [exact H2|reflexivity]].
+      * destruct fail as [k|]; split; simpl; try (unfold logged_size; simpl; rewrite Eh);
+          try exact H1; try (left; split; [exact H2|reflexivity]).
+        rewrite H1. reflexivity.
 Qed.
 
-Lemma step_owh_fresh c s code :
-  u_status (fst s) = None -> consistent s -> consistent (step c s (OWH code)).
+Lemma run_consistent c : forall ops s,
+  head_ok c = true -> final_codes ops = true -> consistent c s -> consistent c (fst (run c s ops)).
 Proof.
-  intros Hn [Hs _]. destruct s as [u r]. simpl in *. unfold uw_wh. rewrite Hn.
-  split; simpl; [exact Hs|left; reflexivity].
+  induction ops as [|o ops IH]; intros s Hh Hf Hc; [exact Hc|].
+  simpl in Hf. apply andb_true_iff in Hf as [Ho Hf].
+  assert (Hs : consistent c (step c s o)).
+  { apply step_consistent; auto. simpl. rewrite Ho. reflexivity. }
+  destruct o as [code|len fail|]; simpl; [apply IH; assumption|apply IH; assumption|exact Hc].
 Qed.
 
-Lemma run_no_wh_consistent c : forall ops s,
-  w_head c = false -> no_wh ops = true -> consistent s -> consistent (fst (run c s ops)).
-Proof.
-  induction ops as [|o ops IH]; intros s Hh Hw Hc; [exact Hc|].
-  simpl in Hw. apply andb_true_iff in Hw as [Ho Hw].
-  destruct o as [code|len fail|]; try discriminate.
-  - simpl. apply IH; auto. apply step_ow_consistent; assumption.
-  - exact Hc.
-Qed.
+Lemma final_codes_app a b : final_codes (a ++ b) = final_codes a && final_codes b.
+Proof. unfold final_codes. apply forallb_app. Qed.
 
-Lemma consistent_init : consistent (uw0, rec0).
-Proof. split; simpl; [reflexivity|right; split; reflexivity]. Qed.
+Lemma error_code_final ret : (400 <=? ret)%Z = true -> informational ret = false.
+Proof. intro H. unfold informational. apply Z.leb_le in H. destruct (ret <=? 199)%Z eqn:E; [apply Z.leb_le in E; lia|]. rewrite andb_false_r. reflexivity. Qed.
 
-Lemma run_wb_consistent c ops :
-  w_head c = false -> wb ops = true -> consistent (fst (run c (uw0, rec0) ops)).
+Lemma err_ops_final tbl ek ret : (400 <=? ret)%Z = true -> final_codes (err_ops tbl ek ret) = true.
+Proof. intro H. simpl. rewrite (error_code_final ret H). reflexivity. Qed.
+
+(* whatever the handler does: either no line is written, or the middleware returns (it does not
+   panic) a status below 400 (so that the server adds nothing) and every line carries the
+   committed status and the delivered byte count *)
+Lemma log_serve_lines c cs tbl ek rules path ops ret :
+  head_ok c = true -> final_codes ops = true ->
+  let '(u', ret', p, lines) := log_serve c cs tbl ek rules path ops ret uw0 return Prop in
+  lines = [] \/
+  (p = false /\ (400 <=? ret')%Z = false /\
+   forall l, In l lines -> snd (fst l) = client_status u' /\ snd l = u_size u').
 Proof.
-  intros Hh Hw. destruct ops as [|o ops]; [exact consistent_init|].
-  destruct o as [code|len fail|].
-  - simpl in Hw. simpl. apply run_no_wh_consistent; auto.
-    apply (step_owh_fresh c (uw0, rec0) code); [reflexivity|exact consistent_init].
-  - apply run_no_wh_consistent; auto. exact consistent_init.
-  - exact consistent_init.
+  intros Hh Hf. unfold log_serve.
+  destruct (find (fun r => path_matches cs path (ru_scope r)) rules) as [r|].
+  - pose proof (run_consistent c ops (uw0, rec0) Hh Hf (consistent_init c)) as Hc.
+    destruct (run c (uw0, rec0) ops) as [[u1 r1] p]. cbn [fst] in Hc.
+    destruct (400 <=? (if p then 500 else ret))%Z eqn:E.
+    + pose proof (run_consistent c (err_ops tbl ek (if p then 500%Z else ret)) (u1, r1) Hh
+                    (err_ops_final tbl ek _ E) Hc) as Hc2.
+      destruct (run c (u1, r1) (err_ops tbl ek (if p then 500%Z else ret))) as [[u2 r2] p2]. cbn [fst] in *.
+      apply consistent_client in Hc2 as [H1 H2]. cbn [fst snd] in *.
+      right. split; [reflexivity|]. split; [reflexivity|].
+      intros l Hl. apply in_map_iff in Hl as [e [<- _]]. simpl. split; symmetry; assumption.
+    + apply consistent_client in Hc as [H1 H2]. cbn [fst snd] in *.
+      right. split; [reflexivity|]. split; [exact E|].
+      intros l Hl. apply in_map_iff in Hl as [e [<- _]]. simpl. split; symmetry; assumption.
+  - destruct (run c (uw0, rec0) ops) as [[u' r'] p]. left. reflexivity.
 Qed.
 
 Lemma logged_exact c cs tbl ek rules path ops ret :
-  w_head c = false -> no_panic ops = true -> wb (ops ++ fallback tbl ek ret) = true ->
+  head_ok c = true -> final_codes ops = true ->
   let '(u', _, _, lines) := log_serve c cs tbl ek rules path ops ret uw0 return Prop in
   forall l, In l lines -> snd (fst l) = client_status u' /\ snd l = u_size u'.
 Proof.
-  intros Hh Hn Hw.
-  destruct (find (fun r => path_matches cs path (ru_scope r)) rules) as [r|] eqn:Hf.
-  - rewrite (log_serve_found c cs tbl ek rules path ops ret uw0 r Hf Hn).
-    pose proof (run_wb_consistent c _ Hh Hw) as Hc. apply consistent_client in Hc as [H1 H2].
-    intros l Hl. apply in_map_iff in Hl as [e [<- _]]. simpl. split; [symmetry; exact H1|symmetry; exact H2].
-  - pose proof (log_serve_not_found c cs tbl ek rules path ops ret uw0 Hf) as H.
-    destruct (log_serve c cs tbl ek rules path ops ret uw0) as [[[u' r'] p] lines]. simpl in H. subst lines.
-    intros l [].
+  intros Hh Hf. pose proof (log_serve_lines c cs tbl ek rules path ops ret Hh Hf) as H.
+  destruct (log_serve c cs tbl ek rules path ops ret uw0) as [[[u' r'] p] lines].
+  destruct H as [->|[_ [_ H]]]; [intros l []|exact H].
 Qed.
 
 (* ---- directive level: logParse ---------------------------------------------------------------- *)
-Fixpoint mk_entries (ds : list directive) (i : nat) (acc : list bytes) : list entry :=
+(* how many lines directive number j of [ds] (numbered from i) owes the request: 1 iff it is the
+   j-th and the request is inside its scope and not excepted by its own list *)
+Fixpoint dcount (cs : bool) (path : bytes) (j : nat) (ds : list directive) (i : nat) : nat :=
   match ds with
-  | [] => []
-  | d :: r => let exc := acc ++ d_except d in {| n_id := i; n_except := exc |} :: mk_entries r (S i) exc
-  end.
-Fixpoint own_entries (ds : list directive) (i : nat) : list entry :=
-  match ds with
-  | [] => []
-  | d :: r => {| n_id := i; n_except := d_except d |} :: own_entries r (S i)
+  | [] => 0%nat
+  | d :: r => ((if owes cs d path && Nat.eqb i j then 1 else 0) + dcount cs path j r (S i))%nat
   end.
 
-Lemma parse_logs_uniform sc : forall ds i acc es,
-  uniform_scope sc ds ->
-  parse_logs ds i acc [{| ru_scope := sc; ru_entries := es |}] =
-  [{| ru_scope := sc; ru_entries := es ++ mk_entries ds i acc |}].
+Lemma logged_append_entry cs path j : forall rules sc e,
+  idcount j (logged cs path (append_entry rules sc e)) =
+  (idcount j (logged cs path rules) +
+   (if path_matches cs path sc && should_log cs (n_except e) path && Nat.eqb (n_id e) j then 1 else 0))%nat.
 Proof.
-  induction ds as [|d ds IH]; intros i acc es Hu.
-  - simpl. rewrite app_nil_r. reflexivity.
-  - simpl. rewrite (Hu d (or_introl eq_refl)). rewrite beq_refl.
-    rewrite IH; [|intros d' Hd'; apply Hu; now right].
-    rewrite <- app_assoc. reflexivity.
+  induction rules as [|r rs IH]; intros sc e.
+  - simpl. rewrite logged_cons. simpl. unfold logged, matching_entries. simpl.
+    destruct (path_matches cs path sc); simpl; [|reflexivity].
+    destruct (should_log cs (n_except e) path); simpl; [|reflexivity].
+    unfold idcount. simpl. destruct (Nat.eqb (n_id e) j); reflexivity.
+  - simpl. destruct (beq (ru_scope r) sc) eqn:E.
+    + apply beq_eq in E. subst sc. rewrite !logged_cons. cbn [ru_scope ru_entries].
+      destruct (path_matches cs path (ru_scope r)); simpl.
+      * rewrite filter_app, !idcount_app. simpl.
+        destruct (should_log cs (n_except e) path); simpl.
+        -- unfold idcount at 2. simpl. destruct (Nat.eqb (n_id e) j); simpl; lia.
+        -- unfold idcount at 2. simpl. lia.
+      * lia.
+    + rewrite !logged_cons, !idcount_app, IH. lia.
 Qed.
 
-Lemma parse_logs_uniform0 sc d ds :
-  uniform_scope sc (d :: ds) ->
-  parse_logs (d :: ds) 0 [] [] = [{| ru_scope := sc; ru_entries := mk_entries (d :: ds) 0 [] |}].
+Lemma logged_parse_logs cs path j : forall ds i rules,
+  idcount j (logged cs path (parse_logs ds i rules)) =
+  (idcount j (logged cs path rules) + dcount cs path j ds i)%nat.
 Proof.
-  intro Hu. simpl. rewrite (Hu d (or_introl eq_refl)).
-  rewrite parse_logs_uniform; [reflexivity|intros d' Hd'; apply Hu; now right].
+  induction ds as [|d ds IH]; intros i rules; [simpl; lia|].
+  simpl. rewrite IH, logged_append_entry. unfold owes. cbn [n_id n_except]. lia.
 Qed.
 
-Lemma mk_entries_own : forall ds i, exc_only_last ds -> mk_entries ds i [] = own_entries ds i.
+Lemma dcount_lt cs path j : forall ds i, (j < i)%nat -> dcount cs path j ds i = 0%nat.
 Proof.
   induction ds as [|d ds IH]; intros i H; [reflexivity|].
-  simpl. destruct ds as [|d2 ds'].
-  - reflexivity.
-  - destruct H as [He Hr]. rewrite He. simpl. f_equal. apply IH. exact Hr.
+  simpl. assert (E : Nat.eqb i j = false) by (apply Nat.eqb_neq; lia).
+  rewrite E, andb_false_r. rewrite IH; [reflexivity|lia].
 Qed.
 
-Definition own_lines cs path (st : Z) (sz : N) ds i : list line :=
-  map (fun e => (n_id e, st, sz)) (filter (fun e => should_log cs (n_except e) path) (own_entries ds i)).
-
-Lemma own_lines_ids_ge cs path st sz : forall ds i l, In l (own_lines cs path st sz ds i) -> (i <= fst (fst l))%nat.
+Lemma counts_ok_of_counts cs path : forall ds i ls,
+  (forall j, (i <= j)%nat -> count_id j ls = dcount cs path j ds i) ->
+  counts_ok cs ds i path ls = true.
 Proof.
-  induction ds as [|d ds IH]; intros i l H; [contradiction|].
-  unfold own_lines in H. simpl in H.
-  destruct (should_log cs (d_except d) path).
-  - simpl in H. destruct H as [<-|H]; [simpl; lia|]. apply IH in H. lia.
-  - apply IH in H. lia.
+  induction ds as [|d ds IH]; intros i ls H; [reflexivity|].
+  simpl. apply andb_true_iff. split.
+  - rewrite (H i (le_n i)). simpl. rewrite Nat.eqb_refl, andb_true_r.
+    rewrite (dcount_lt cs path i ds (S i) (le_n (S i))), Nat.add_0_r. apply Nat.eqb_refl.
+  - apply IH. intros j Hj. rewrite (H j); [|lia]. simpl.
+    assert (E : Nat.eqb i j = false) by (apply Nat.eqb_neq; lia).
+    rewrite E, andb_false_r. reflexivity.
 Qed.
 
-Lemma count_id_lt i (ls : list line) : (forall l, In l ls -> (i < fst (fst l))%nat) -> count_id i ls = 0%nat.
+Lemma one_line_per_log c cs tbl ek ds path ops ret u :
+  counts_ok cs ds 0 path (snd (log_serve c cs tbl ek (parse_logs ds 0 []) path ops ret u)) = true.
 Proof.
-  induction ls as [|l ls IH]; intro H; [reflexivity|].
-  unfold count_id in *. simpl. pose proof (H l (or_introl eq_refl)) as Hl.
-  assert (E : Nat.eqb (fst (fst l)) i = false) by (apply Nat.eqb_neq; lia).
-  rewrite E. apply IH. intros l' Hl'. apply H. now right.
-Qed.
-
-Lemma counts_ok_ext cs path : forall ds j extra ls,
-  (forall l, In l extra -> (fst (fst l) < j)%nat) ->
-  counts_ok cs ds j path (extra ++ ls) = counts_ok cs ds j path ls.
-Proof.
-  induction ds as [|d ds IH]; intros j extra ls H; [reflexivity|].
-  simpl. rewrite count_id_app.
-  assert (E : count_id j extra = 0%nat).
-  { unfold count_id. induction extra as [|x extra IHe]; [reflexivity|].
-    simpl. pose proof (H x (or_introl eq_refl)) as Hx.
-    assert (E : Nat.eqb (fst (fst x)) j = false) by (apply Nat.eqb_neq; lia).
-    rewrite E. apply IHe. intros l Hl. apply H. now right. }
-  rewrite E. simpl. f_equal. apply IH. intros l Hl. apply H in Hl. lia.
-Qed.
-
-Lemma counts_ok_own cs path sc st sz : path_matches cs path sc = true -> forall ds i,
-  uniform_scope sc ds -> counts_ok cs ds i path (own_lines cs path st sz ds i) = true.
-Proof.
-  intros Hm. induction ds as [|d ds IH]; intros i Hu; [reflexivity|].
-  simpl. unfold owes. rewrite (Hu d (or_introl eq_refl)), Hm. simpl.
-  assert (Hu' : uniform_scope sc ds) by (intros d' Hd'; apply Hu; now right).
-  assert (Hz : count_id i (own_lines cs path st sz ds (S i)) = 0%nat).
-  { apply count_id_lt. intros l Hl. apply own_lines_ids_ge in Hl. lia. }
-  unfold own_lines at 1 2. simpl. destruct (should_log cs (d_except d) path) eqn:Es.
-  - simpl. fold (own_lines cs path st sz ds (S i)).
-    assert (Hc : count_id i ((i, st, sz) :: own_lines cs path st sz ds (S i)) = 1%nat).
-    { change ((i, st, sz) :: own_lines cs path st sz ds (S i)) with ([(i, st, sz)] ++ own_lines cs path st sz ds (S i)).
-      rewrite count_id_app, Hz. unfold count_id. simpl. rewrite Nat.eqb_refl. reflexivity. }
-    rewrite Hc. cbn [Nat.eqb andb].
-    change ((i, st, sz) :: own_lines cs path st sz ds (S i)) with ([(i, st, sz)] ++ own_lines cs path st sz ds (S i)).
-    rewrite counts_ok_ext; [apply IH; exact Hu'|].
-    intros l [<-|[]]. simpl. lia.
-  - fold (own_lines cs path st sz ds (S i)). rewrite Hz. simpl. apply IH. exact Hu'.
-Qed.
-
-Lemma counts_ok_nil cs path sc : path_matches cs path sc = false -> forall ds i,
-  uniform_scope sc ds -> counts_ok cs ds i path [] = true.
-Proof.
-  intros Hm. induction ds as [|d ds IH]; intros i Hu; [reflexivity|].
-  simpl. unfold owes. rewrite (Hu d (or_introl eq_refl)), Hm. simpl.
-  apply IH. intros d' Hd'. apply Hu. now right.
-Qed.
-
-Lemma one_line_per_log_partial c cs tbl ek sc ds path ops ret u :
-  uniform_scope sc ds -> exc_only_last ds -> no_panic ops = true ->
-  counts_ok cs ds 0 path (snd (log_serve c cs tbl ek (parse_logs ds 0 [] []) path ops ret u)) = true.
-Proof.
-  intros Hu He Hn. destruct ds as [|d ds].
-  - reflexivity.
-  - rewrite (parse_logs_uniform0 sc d ds Hu). rewrite (mk_entries_own (d :: ds) 0 He).
-    destruct (path_matches cs path sc) eqn:Hm.
-    + rewrite (log_serve_found c cs tbl ek _ path ops ret u
-                 {| ru_scope := sc; ru_entries := own_entries (d :: ds) 0 |}); [|simpl; rewrite Hm; reflexivity|exact Hn].
-      cbn [snd ru_entries]. apply (counts_ok_own cs path sc _ _ Hm (d :: ds) 0 Hu).
-    + rewrite log_serve_not_found; [|simpl; rewrite Hm; reflexivity].
-      apply (counts_ok_nil cs path sc Hm (d :: ds) 0 Hu).
+  pose proof (log_serve_lines_shape c cs tbl ek (parse_logs ds 0 []) path ops ret u) as H.
+  destruct (log_serve c cs tbl ek (parse_logs ds 0 []) path ops ret u) as [[[u' r'] p] lines].
+  destruct H as [[st [sz ->]] _]. cbn [snd].
+  apply counts_ok_of_counts. intros j _. rewrite count_id_map, logged_parse_logs. reflexivity.
 Qed.
 
 (* ---- the whole site ---------------------------------------------------------------------------- *)
@@ -599,82 +648,68 @@ Proof.
   destruct hdrw; [rewrite header_filter_no_panic|]; exact Hn.
 Qed.
 
+Lemma upto_panic_final : forall ops, final_codes ops = true -> final_codes (fst (upto_panic ops)) = true.
+Proof.
+  induction ops as [|o ops IH]; intro H; [reflexivity|].
+  simpl in H. apply andb_true_iff in H as [Ho H]. specialize (IH H).
+  destruct o; simpl; try reflexivity; destruct (upto_panic ops); simpl in *; rewrite ?Ho; exact IH.
+Qed.
+
+Lemma errors_flat_final tbl ops ret : final_codes ops = true -> final_codes (fst (errors_flat tbl ops ret)) = true.
+Proof.
+  intro H. unfold errors_flat. pose proof (upto_panic_final ops H) as Ha.
+  destruct (upto_panic ops) as [a p]. simpl in Ha.
+  destruct p; [|destruct (400 <=? ret)%Z eqn:E]; cbn [fst]; rewrite ?final_codes_app, ?Ha; [reflexivity| |reflexivity].
+  rewrite (err_ops_final tbl 1 ret E). reflexivity.
+Qed.
+
+Lemma header_filter_final : forall ops w, final_codes ops = true -> final_codes (header_filter w ops) = true.
+Proof.
+  induction ops as [|o ops IH]; intros w H; [reflexivity|].
+  simpl in H. apply andb_true_iff in H as [Ho H].
+  destruct o as [code|len fail|]; simpl.
+  - destruct w; simpl; [|rewrite Ho]; apply IH; exact H.
+  - apply IH. exact H.
+  - apply IH. exact H.
+Qed.
+
+Lemma inner_flat_final tbl (haserr hdrw : bool) ops ret :
+  final_codes ops = true -> final_codes (fst (inner_flat tbl haserr hdrw ops ret)) = true.
+Proof.
+  intro H. unfold inner_flat.
+  assert (Hn : final_codes (fst (if haserr then errors_flat tbl ops ret else (ops, ret))) = true).
+  { destruct haserr; [apply errors_flat_final|]; exact H. }
+  destruct (if haserr then errors_flat tbl ops ret else (ops, ret)) as [ops1 ret1]. simpl in *.
+  destruct hdrw; [apply header_filter_final|]; exact Hn.
+Qed.
+
 Lemma site_logged_exact c cs tbl (haserr hdrw : bool) ds path ops ret :
-  w_head c = false ->
-  let flat := inner_flat tbl haserr hdrw ops ret in
-  no_panic (fst flat) = true -> wb (fst flat ++ fallback tbl 1 (snd flat)) = true ->
+  head_ok c = true -> final_codes ops = true ->
   let '(st, sz, lines) := site_serve c cs tbl haserr hdrw ds path ops ret return Prop in
   forall l, In l lines -> snd (fst l) = st /\ snd l = sz.
 Proof.
-  intros Hh. cbv zeta. unfold site_serve.
-  destruct (inner_flat tbl haserr hdrw ops ret) as [ops1 ret1]. cbn [fst snd].
-  intros Hn Hw.
-  pose proof (logged_exact c cs tbl 1 (parse_logs ds 0 [] []) path ops1 ret1 Hh Hn Hw) as H.
-  destruct (find (fun r => path_matches cs path (ru_scope r)) (parse_logs ds 0 [] [])) as [r|] eqn:Hf.
-  - rewrite (log_serve_found c cs tbl 1 _ path ops1 ret1 uw0 r Hf Hn) in *.
-    assert (Hr : (400 <=? (if (400 <=? ret1)%Z then 0%Z else ret1))%Z = false).
-    { destruct (400 <=? ret1)%Z eqn:E; [reflexivity|exact E]. }
-    rewrite Hr. exact H.
-  - pose proof (log_serve_not_found c cs tbl 1 _ path ops1 ret1 uw0 Hf) as Hl.
-    destruct (log_serve c cs tbl 1 (parse_logs ds 0 [] []) path ops1 ret1 uw0) as [[[u' r'] p] lines].
-    simpl in Hl. subst lines.
-    destruct p; [|destruct (400 <=? r')%Z]; intros l [].
+  intros Hh Hf. unfold site_serve.
+  pose proof (inner_flat_final tbl haserr hdrw ops ret Hf) as Hf1.
+  destruct (inner_flat tbl haserr hdrw ops ret) as [ops1 ret1]. cbn [fst] in Hf1.
+  pose proof (log_serve_lines c cs tbl 1 (parse_logs ds 0 []) path ops1 ret1 Hh Hf1) as H.
+  destruct (log_serve c cs tbl 1 (parse_logs ds 0 []) path ops1 ret1 uw0) as [[[u ret2] p] lines].
+  destruct H as [->|[-> [Hr H]]]; [intros l []|]. rewrite Hr. exact H.
 Qed.
 
 Lemma site_lines c cs tbl (haserr hdrw : bool) ds path ops ret :
   let flat := inner_flat tbl haserr hdrw ops ret in
   snd (site_serve c cs tbl haserr hdrw ds path ops ret) =
-  snd (log_serve c cs tbl 1 (parse_logs ds 0 [] []) path (fst flat) (snd flat) uw0).
+  snd (log_serve c cs tbl 1 (parse_logs ds 0 []) path (fst flat) (snd flat) uw0).
 Proof.
   cbv zeta. unfold site_serve.
   destruct (inner_flat tbl haserr hdrw ops ret) as [ops1 ret1]. cbn [fst snd].
-  destruct (log_serve c cs tbl 1 (parse_logs ds 0 [] []) path ops1 ret1 uw0) as [[[u r] p] lines].
+  destruct (log_serve c cs tbl 1 (parse_logs ds 0 []) path ops1 ret1 uw0) as [[[u r] p] lines].
   reflexivity.
 Qed.
 
-Lemma site_one_line_per_log_partial c cs tbl (haserr hdrw : bool) sc ds path ops ret :
-  uniform_scope sc ds -> exc_only_last ds -> (haserr = true \/ no_panic ops = true) ->
+Lemma site_one_line_per_log c cs tbl (haserr hdrw : bool) ds path ops ret :
   counts_ok cs ds 0 path (snd (site_serve c cs tbl haserr hdrw ds path ops ret)) = true.
-Proof.
-  intros Hu He Hp. rewrite site_lines. cbv zeta.
-  apply one_line_per_log_partial with (sc := sc); auto.
-  apply inner_flat_no_panic. exact Hp.
-Qed.
-
-(* with a header directive in front of the handler the recorder sees at most one WriteHeader,
-   and only before the first Write: the writer contract holds for EVERY handler script *)
-Lemma header_filter_no_wh : forall ops, no_wh (header_filter true ops) = true.
-Proof.
-  induction ops as [|o ops IH]; [reflexivity|]. destruct o; simpl; exact IH.
-Qed.
-
-Lemma header_filter_wb ops : no_panic ops = true -> wb (header_filter false ops) = true.
-Proof.
-  destruct ops as [|o ops]; intro H; [reflexivity|].
-  destruct o as [code|len fail|]; simpl in *; try discriminate; apply header_filter_no_wh.
-Qed.
-
-Lemma errors_flat_fallback_nil tbl ops ret : fallback tbl 1 (snd (errors_flat tbl ops ret)) = [].
-Proof.
-  unfold errors_flat. destruct (upto_panic ops) as [a p].
-  destruct p; [reflexivity|]. destruct (400 <=? ret)%Z eqn:E; [reflexivity|].
-  simpl. unfold fallback. rewrite E. reflexivity.
-Qed.
-
-Lemma site_exact_with_errors_and_header c cs tbl ds path ops ret :
-  w_head c = false ->
-  let '(st, sz, lines) := site_serve c cs tbl true true ds path ops ret return Prop in
-  forall l, In l lines -> snd (fst l) = st /\ snd l = sz.
-Proof.
-  intro Hh.
-  pose proof (site_logged_exact c cs tbl true true ds path ops ret Hh) as H. cbv zeta in H.
-  apply H.
-  - apply inner_flat_no_panic. now left.
-  - unfold inner_flat. pose proof (errors_flat_no_panic tbl ops ret) as Hn.
-    pose proof (errors_flat_fallback_nil tbl ops ret) as Hf.
-    destruct (errors_flat tbl ops ret) as [ops1 ret1]. simpl in *. rewrite Hf, app_nil_r.
-    apply header_filter_wb. exact Hn.
-Qed.
+Proof. rewrite site_lines. cbv zeta. apply one_line_per_log. Qed.
 
 (* ---- escaping every brace of a text and expanding gives the text back ----------------------- *)
 Fixpoint esc1 (c : N) (w : bytes) : bytes :=
